@@ -224,38 +224,49 @@ func c02run(w *report.W) {
 	}
 	focus := []string{"s0.cmd.plugins", "s0.cmd.matrix", "s0.cmd.env"}
 	bound := 1
-	if w.Thorough() {
-		bound = 2
-	}
 	var execs int64
-	// (1) generated documents, signed-field shorthands open
-	ex := &explore.Explorer{Bound: bound}
-	ex.Run = func(x *explore.X) bool {
-		execs++
-		g := &docgen.Gen{X: x, Focus: focus}
-		doc := g.Pipeline()
-		for _, pres := range []string{"yaml-block", "json"} {
-			text, err := docgen.Render(doc.In, pres)
-			if err != nil {
-				continue
-			}
-			if !w.Take("gen|" + text) {
-				continue
-			}
-			c02record(w, "gen", doc.Descr, text, c02opts{keyKind: "EdDSA", yamlLeg: true}, len(g.Trace)*10+len(text)/40)
-			if len(w.P.Samples) < 2 && len(g.Trace) == 2 {
-				w.Sample(map[string]string{"descr": doc.Descr, "text": text})
-			}
-		}
-		if execs%64 == 0 && w.Expired() {
-			w.Inexhaustive("soft deadline")
-			return false
-		}
-		return len(w.P.HarnessErrors) == 0
+	// (1) generated documents, signed-field shorthands open (all 13 x 10 x 6 combinations), <=1 deviation elsewhere;
+	// thorough adds (1b): no focus, <=3 deviations
+	type genRun struct {
+		focus []string
+		bound int
 	}
-	ex.Explore()
-	if w.Shard == 0 {
-		w.P.Bounds["generated"] = fmt.Sprintf("focus=%v deviations<=%d: %d choice sequences", focus, bound, ex.Stats.Executions)
+	runs := []genRun{{focus, bound}}
+	if w.Thorough() {
+		runs = append(runs, genRun{nil, 3})
+	} else {
+		runs = append(runs, genRun{nil, 2})
+	}
+	for _, gr := range runs {
+		gr := gr
+		ex := &explore.Explorer{Bound: gr.bound}
+		ex.Run = func(x *explore.X) bool {
+			execs++
+			g := &docgen.Gen{X: x, Focus: gr.focus}
+			doc := g.Pipeline()
+			for _, pres := range []string{"yaml-block", "json"} {
+				text, err := docgen.Render(doc.In, pres)
+				if err != nil {
+					continue
+				}
+				if !w.Take("gen|" + text) {
+					continue
+				}
+				c02record(w, "gen", doc.Descr, text, c02opts{keyKind: "EdDSA", yamlLeg: true}, len(g.Trace)*10+len(text)/40)
+				if len(w.P.Samples) < 2 && len(g.Trace) == 2 {
+					w.Sample(map[string]string{"descr": doc.Descr, "text": text})
+				}
+			}
+			if execs%64 == 0 && w.Expired() {
+				w.Inexhaustive("soft deadline")
+				return false
+			}
+			return len(w.P.HarnessErrors) == 0
+		}
+		ex.Explore()
+		if w.Shard == 0 {
+			w.P.Bounds[fmt.Sprintf("generated(focus=%v)", gr.focus)] = fmt.Sprintf("deviations<=%d: %d choice sequences", gr.bound, ex.Stats.Executions)
+		}
 	}
 	// (2) all key kinds, with and without interpolation, on the <=1-deviation slice (no focus)
 	ex2 := &explore.Explorer{Bound: 1}
@@ -379,7 +390,7 @@ func c02run(w *report.W) {
 func init() {
 	register(&report.Check{
 		ID: "C02",
-		Rule: "(1) generated pipeline documents (choice explorer; plugin / matrix / step-env shorthands of the first command step fully open, <=1 (quick) / <=2 (thorough) deviations elsewhere: all step kinds, groups, " +
+		Rule: "(1) generated pipeline documents (choice explorer; plugin / matrix / step-env shorthands of the first command step fully open with <=1 deviation elsewhere, plus all documents within 2 (quick) / 3 (thorough) deviations: all step kinds, groups, " +
 			"pipeline env forms, extras), YAML and JSON input; (2) the <=1-deviation slice with every key kind (EdDSA, ES512, PS512, ES256 crypto.Signer) with and without Interpolate before signing; (3) every string of " +
 			"the C09 alphabet (look-alikes + all strings of <=1/2 runes) at every signed string position (pipeline env names/values, command, step env, plugin configs, matrix) of two base documents; (4) sign+marshal " +
 			"under every explored map iteration order (seam). Lifecycle per case: Parse -> [Interpolate] -> SignSteps(pipeline env) -> marshal JSON and YAML -> Parse the output / CommandStep.UnmarshalJSON of each step's JSON -> " +
